@@ -82,7 +82,7 @@ def ctermText (plus : Plus) : Option (List Mod) → List Char
 def chargeText (plus : Plus) (ch : Option Int) (ad : Option (List Mod)) : List Char :=
   (match ch with
    | none => []
-   | some c => if c = 0 then [] else '/' :: intText c) ++ optMods '[' ']' plus ad
+   | some c => '/' :: intText c) ++ optMods '[' ']' plus ad
 
 theorem serializeEnd_eq (plus : Plus) (a : Annotation) :
     serializeEnd plus a = ctermText plus a.cterm ++ chargeText plus a.charge a.adducts := by
@@ -124,7 +124,7 @@ theorem phases_tail (plus : Plus) (a : Annotation) (hc : canon a = true) (acc1 :
                          charge := a.charge, adducts := a.adducts }, stopConn conn rest, stopRest rest) ∧
       StartStop (serializeMiddle plus a ++ (ctermText plus a.cterm ++ (chargeText plus a.charge a.adducts ++ rest))) := by
   simp only [canon, Bool.and_eq_true, Bool.not_eq_eq_eq_not, Bool.not_true] at hc
-  obtain ⟨⟨⟨⟨⟨⟨⟨⟨⟨⟨⟨hne, hAA⟩, hlab⟩, hst⟩, hiso⟩, hunk⟩, hnt⟩, hD⟩, hL⟩, hct⟩, hch⟩, had⟩ := hc
+  obtain ⟨⟨⟨⟨⟨⟨⟨⟨⟨⟨hne, hAA⟩, hlab⟩, hst⟩, hiso⟩, hunk⟩, hnt⟩, hD⟩, hL⟩, hct⟩, had⟩ := hc
   have hne' : a.seq ≠ [] := by intro h; rw [h] at hne; simp at hne
   -- what follows the charge part
   have hQ : chargeText plus a.charge a.adducts ++ rest = [] ∨
@@ -142,9 +142,7 @@ theorem phases_tail (plus : Plus) (a : Annotation) (hc : canon a = true) (acc1 :
         · exact Or.inr ⟨'/', _, rfl, Or.inl rfl⟩
       | some l => rw [haq] at had; simp [canonAdducts] at had
     | some ch =>
-      rw [hcq] at hch
-      simp only [decide_eq_true_eq] at hch
-      simp only [hch, ↓reduceIte, List.cons_append, List.append_assoc]
+      simp only [List.cons_append, List.append_assoc]
       exact Or.inr ⟨'/', _, rfl, Or.inl rfl⟩
   have hQstop : MidStop (chargeText plus a.charge a.adducts ++ rest) := by
     rcases hQ with h | ⟨c, r, h, hc⟩
@@ -170,14 +168,14 @@ theorem phases_tail (plus : Plus) (a : Annotation) (hc : canon a = true) (acc1 :
     cases hcq : a.cterm with
     | none =>
       simp only [ctermText, List.nil_append]
-      rw [pm_stop _ _ _ hQ]
+      rw [pm_stop _ _ hQ]
       simp [a2, hcq, g4]
     | some l =>
       rw [hcq] at hct
       obtain ⟨hl, hall⟩ := canonOptMods_some _ _ _ hct
       rw [ctermText_some plus l hl]
       simp only [List.cons_append]
-      rw [pm_cterm plus _ _ l hall _ hQstop]
+      rw [pm_cterm plus _ l hl hall _ hQstop]
       simp [addMods, a2, hcq, g4]
   · unfold chargeText
     cases hcq : a.charge with
@@ -191,9 +189,8 @@ theorem phases_tail (plus : Plus) (a : Annotation) (hc : canon a = true) (acc1 :
         congr 2
         exact Annotation.ext11 _ _ rfl rfl rfl rfl rfl rfl rfl rfl rfl g5 g6
     | some ch =>
-      rw [hcq] at hch had
-      simp only [decide_eq_true_eq] at hch
-      simp only [hch, ↓reduceIte, List.cons_append, List.append_assoc]
+      rw [hcq] at had
+      simp only [List.cons_append, List.append_assoc]
       rw [parseEnd_charge plus a2 (by simp [a2, g6]) conn ch a.adducts had rest hrest, parseEnd_stop _ _ _ hrest]
 
 /-- the three phases on one canonical chain followed by the end of the input or by the joiner of the next chain -/
@@ -205,7 +202,7 @@ theorem phases_chain (plus : Plus) (a : Annotation) (hc : canon a = true) (conn 
       parseEnd a2 conn r2 = .ok (a, stopConn conn rest, stopRest rest) := by
   have hc' := hc
   simp only [canon, Bool.and_eq_true, Bool.not_eq_eq_eq_not, Bool.not_true] at hc'
-  obtain ⟨⟨⟨⟨⟨⟨⟨⟨⟨⟨⟨hne, hAA⟩, hlab⟩, hst⟩, hiso⟩, hunk⟩, hnt⟩, hD⟩, hL⟩, hct⟩, hch⟩, had⟩ := hc'
+  obtain ⟨⟨⟨⟨⟨⟨⟨⟨⟨⟨hne, hAA⟩, hlab⟩, hst⟩, hiso⟩, hunk⟩, hnt⟩, hD⟩, hL⟩, hct⟩, had⟩ := hc'
   have htext : serialize plus a ++ rest =
       optMods '{' '}' plus a.labile ++ (optMods '<' '>' plus a.static ++ (optMods '<' '>' plus a.isotope ++
         (optSection plus '?' a.unknown ++ (optSection plus '-' a.nterm ++
@@ -253,8 +250,8 @@ theorem parseChains_chain (plus : Plus) (a : Annotation) (hc : canon a = true) (
     cases parseChains true (stopConn conn rest) (stopRest rest) <;> rfl
 
 
-theorem parseMiddle_allAA (acc : Annotation) (dm : Option (Int × Bool)) (s : List Char) (hs : s.all isAA = true) :
-    parseMiddle acc dm s = .ok ({ acc with seq := acc.seq ++ s }, []) := by
+theorem parseMiddle_allAA (acc : Annotation) (s : List Char) (hs : s.all isAA = true) :
+    parseMiddle acc none s = .ok ({ acc with seq := acc.seq ++ s }, []) := by
   induction s generalizing acc with
   | nil => rw [parseMiddle.eq_def]; simp
   | cons c t ih =>
@@ -273,7 +270,7 @@ theorem parseChains_allAA (conn : Option Bool) (s : List Char) (hs : s.all isAA 
     simp only
     rw [parseStart_stop _ _ (Or.inr ⟨c, t, rfl, Or.inl hc⟩)]
     simp only
-    rw [parseMiddle_allAA _ _ _ hs]
+    rw [parseMiddle_allAA _ _ hs]
     simp only
     rw [parseEnd.eq_def]
     simp only [List.length_nil, List.length_cons, Nat.zero_lt_succ, ↓reduceDIte]
